@@ -24,7 +24,9 @@ FPU == {
   [kind |-> "D", old |-> "a", new |-> "a", ren |-> FALSE, hunks |-> <<>>, to |-> <<>>, from |-> <<1>>, nmode |-> NoMode],
   [kind |-> "D", old |-> "d/c", new |-> NULL, ren |-> FALSE, hunks |-> <<>>, to |-> <<>>, from |-> <<0>>, nmode |-> NoMode],
   [kind |-> "D", old |-> "a", new |-> "b", ren |-> FALSE, hunks |-> <<>>, to |-> <<>>, from |-> <<0>>, nmode |-> NoMode],   \* deletion with differing names
-  [kind |-> "C", old |-> NULL, new |-> "a", ren |-> FALSE, hunks |-> <<>>, to |-> <<0>>, from |-> <<>>, nmode |-> NoMode] }  \* re-creation under an old name
+  [kind |-> "C", old |-> NULL, new |-> "a", ren |-> FALSE, hunks |-> <<>>, to |-> <<0>>, from |-> <<>>, nmode |-> NoMode],
+  [kind |-> "C", old |-> NULL, new |-> "b", ren |-> FALSE, hunks |-> <<>>, to |-> <<>>, from |-> <<>>, nmode |-> NoMode],     \* git creation of an empty file (no hunks)
+  [kind |-> "D", old |-> "b", new |-> NULL, ren |-> FALSE, hunks |-> <<>>, to |-> <<>>, from |-> <<>>, nmode |-> NoMode] }   \* git deletion of an empty file  \* re-creation under an old name
 
 F(cells, mode) == [ex |-> TRUE, cells |-> cells, mode |-> mode]
 TreeOf(a, b, c, e) == [p \in Paths |-> CASE p = "a" -> a [] p = "b" -> b [] p = "d/c" -> c [] p = "d/e" -> e]
